@@ -26,6 +26,11 @@ def g(v):
             return "(%s)%%Z" % v["Z"]
         if "p" in v:
             return "(" + ", ".join(g(x) for x in v["p"]) + ")"
+        if "str" in v:
+            cps = [ord(ch) for ch in v["str"]]
+            if not cps:
+                return "(@nil N)"
+            return "([" + "; ".join(str(c) for c in cps) + "]%N)"
         if "gm" in v:
             return "(list_to_map " + g(v["gm"]) + ")"
         if "s" in v:
